@@ -44,6 +44,8 @@
      t     t[c] component temperature
      ord   the order in which the components are stored in the block (a permutation of the sorted order; nothing may depend on it)
      lfp   the block carries a lumped-fission-product collection
+     sym   symmetry factor of the block's position (HexBlock.getSymmetryFactor: 3 at the centre of a third core, 2 on its
+           symmetry lines when both edges are filled, else 1): getVolume() and Component.getMass() are divided by it
 
    Interpretation choices
    * "weight" of a member = (flux or 1) * volume for the flux-weighted option, volume otherwise (getWeight);
@@ -72,8 +74,10 @@ CONSTANTS CompArea,      \* <<a_1, .., a_C>>  component areas, ascending (sorted
 Comps == 1..Len(CompArea)
 Nucs  == 1..NNuc
 Area  == FoldLeft(LAMBDA acc, a : acc + a, 0, CompArea)
-Vol(b)     == Area * b.h
-CVol(b, c) == CompArea[c] * b.h
+\* volumes in units of 1/6 (so that the symmetry factors 1, 2, 3 divide them): only ratios of volumes matter anywhere
+SW(b)      == 6 \div b.sym
+Vol(b)     == Area * b.h * SW(b)
+CVol(b, c) == CompArea[c] * b.h * SW(b)
 
 Reps    == {"Median", "Average", "FluxWeightedAverage", "ComponentAverage1DCylinder", "ComponentAverage1DSlab"}
 Filters == {"all", "fuel", "fuelcontrol"}
@@ -113,7 +117,7 @@ HoldV(b, k)     == ISum([c \in Comps |-> IF k \in Holds[c] THEN CVol(b, c) ELSE 
 AvgDens(cs, rep, k)        == WMean(cs, LAMBDA b : Wt(b, rep), LAMBDA b : DensNum(b, k), Area)
 AvgCompDens(cs, rep, c, k) == WMean(cs, LAMBDA b : Wt(b, rep), LAMBDA b : b.n[c][k], 1)
 AvgCompTemp(cs, rep, c) ==
-    LET wt(b) == WP(b, rep) * Area * CompMass(b, c)                       \* (W / height) * mass
+    LET wt(b) == WP(b, rep) * Area * SW(b) * CompMass(b, c)               \* (W / height) * mass
         tot   == ISum([i \in Idx(cs) |-> wt(cs[i])])
     IN IF tot = 0 THEN RFrac(ISum([i \in Idx(cs) |-> cs[i].t[c]]), Len(cs))
        ELSE RFrac(ISum([i \in Idx(cs) |-> wt(cs[i]) * cs[i].t[c]]), tot)
@@ -194,6 +198,14 @@ RepOf(ms, opt) ==
              ctemp |-> <<>>,
              ntemp |-> [k \in Nucs |-> NucTemp(cs, r, k)],
              bu    |-> Burnup(cs, r)]
+\* calcAvgNuclideTemperatures of a collection (what updateNuclideTemperatures stores): over the candidates, for the median
+\* option of the median member alone; a collection without candidates contributes nothing (all temperatures 0)
+NucTempsOf(ms, opt) ==
+    LET ps == CandPos(ms, opt.filter)
+        cs == Cand(ms, opt.filter)
+    IN IF opt.rep = "Median" /\ Len(cs) > 0
+       THEN [k \in Nucs |-> NucTemp(<<cs[MedianIdx(cs, ps)]>>, opt.rep, k)]
+       ELSE [k \in Nucs |-> NucTemp(cs, opt.rep, k)]
 \* the numbers of a representative (without the position of its source in the collection)
 RepValues(R) == [out |-> R.out, lfp |-> R.lfp, dens |-> R.dens, cdens |-> R.cdens, ctemp |-> R.ctemp, ntemp |-> R.ntemp, bu |-> R.bu]
 =====================================================================================================
